@@ -1129,6 +1129,18 @@ def c02_anyall(ctx):
                     call_ok = i2 is not None and i2[0] == 'call' and term_callee(i2) == 'std::ops::Fn::call' and i2[2][0] == P('cap:' + cb.d['captures'][0]) and i2[2][1] == ('tuple', (x,))
                     ok = k2 == 'not' and call_ok
                     why += ' with closure = ' + t_str(cr.ret)
+        if not ok and m == 'all' and kind == 'not' and inner is not None and inner[0] == 'call' and term_callee(inner) == PAR_TRAIT + '::any' \
+                and len(inner[2]) == 2 and inner[2][0] == P('self'):
+            # all(p) = !any(|x| !p(x)): with any = find(..).is_some() (its own instance) this is find(self, |x| !p(x)).is_none()
+            arg = inner[2][1]
+            if arg[0] == 'closure' and arg[2] == (pred,) and arg[1] in F.bodies:
+                cr = ctx.run(arg[1])
+                cb = F.bodies[arg[1]]
+                x = P(cb.local_name(2))
+                k2, i2 = norm_bool(cr.ret)
+                call_ok = i2 is not None and i2[0] == 'call' and term_callee(i2) == 'std::ops::Fn::call' and i2[2][0] == P('cap:' + cb.d['captures'][0]) and i2[2][1] == ('tuple', (x,))
+                ok = k2 == 'not' and call_ok
+                why = '!any(self, |x| %s)' % t_str(cr.ret)
         out.inst('C02-ANYALL/' + m, ok, why, sample={'method': m, 'ret': why})
         if not ok:
             out.fail('C02-ANYALL/' + name, '%s is %s: expected %s' % (name, why, 'find(self, predicate).is_some()' if m == 'any' else 'find(self, |x| !predicate(x)).is_none()'), b.where())
@@ -1221,7 +1233,13 @@ ORD = 'std::cmp::Ordering'
 def reduce_call_of(ctx, b, r):
     """the `Par::reduce(self, op)` call record of a provided method body"""
     cs = [c for _, c in r.call_sites() if sg(c['decl']) == PAR_TRAIT + '::reduce' and c['args'] and c['args'][0] == P('self')]
-    return cs[0] if len(cs) == 1 else None
+    if len(cs) == 1:
+        return cs[0]
+    # the reduction may sit in a crate helper that the analysis inlined (`reduce_to(Extremum::Min, self, compare)`): then the value of
+    # the method is the reduce call itself
+    if not cs and r.ret is not None and r.ret[0] == 'call' and sg(r.ret[1]) == PAR_TRAIT + '::reduce' and len(r.ret[2]) == 2 and r.ret[2][0] == P('self'):
+        return {'res': r.ret, 'args': list(r.ret[2]), 'line': None, 't': {}, 'decl': r.ret[1], 'pc': frozenset()}
+    return None
 
 
 def binary_op_is(ctx, op, names):
@@ -1264,7 +1282,9 @@ def operator_selection(ctx, op, mode, user=None):
     if len(cb.arg_locals()) != 3:
         return None, 'operator closure does not take two arguments'
     x, y = P(cb.local_name(2) or '_2'), P(cb.local_name(3) or '_3')
-    r0 = ctx.run(op[1])
+    # the closure is analysed with its captures bound to what the wrapper put there (`Extremum::Min`, the user's comparison, a
+    # crate closure around the user's key extractor ..)
+    r0 = ctx.opa.run(op[1], [op, x, y])
     # `|a, b| a.min(b)` / `|a, b| Ord::max(b, a)`: the std selection functions applied to the two arguments
     if mode == 'natural' and r0.ret is not None and r0.ret[0] == 'call' and sg(r0.ret[1]) in STD_SELECT and len(r0.ret[2]) == 2:
         std = STD_SELECT[sg(r0.ret[1])]
@@ -1275,16 +1295,17 @@ def operator_selection(ctx, op, mode, user=None):
             return {o: swap[std[FLIP[o]]] for o in ('Less', 'Equal', 'Greater')}, 'closure calling std %s(y, x)' % sg(r0.ret[1]).split('::')[-1]
     cap = None
     if user is not None:
-        if user not in op[2]:
+        if not any(z == user for z in subterms(op)):
             return None, 'the operator does not use %s' % t_str(user)
-        cap = P('cap:' + cb.d['captures'][list(op[2]).index(user)])
+        cap = user
     cands = []
     recs = []
     for _, c in r0.call_sites():
         recs.append((c['res'], sg(c['decl']), tuple(c['args'])))
-        # a crate helper that computes the ordering (`cmp_by_key(key, &x, &y)`) is inlined by the analysis: its value is the cmp term
+        # a crate helper / closure that computes the ordering (`cmp_by_key(key, &x, &y)`, `compare_keys(key)`) is inlined by the
+        # analysis: its value is the cmp term
         tv = c['res']
-        if c['t'].get('local') and tv is not None and tv[0] == 'call' and sg(tv[1]) in ('std::cmp::Ord::cmp', 'std::cmp::PartialOrd::partial_cmp'):
+        if tv is not None and tv[0] == 'call' and sg(tv[1]) in ('std::cmp::Ord::cmp', 'std::cmp::PartialOrd::partial_cmp') and sg(c['decl']) != sg(tv[1]):
             recs.append((tv, sg(tv[1]), tuple(tv[2])))
     for (t, dcl, cargs) in recs:
         c = {'args': cargs, 'decl': dcl}
@@ -1311,7 +1332,7 @@ def operator_selection(ctx, op, mode, user=None):
     tab = {}
     for nm in ('Less', 'Equal', 'Greater'):
         vt = ('variant', ORD, F.variant_index(ORD, nm), (), nm)
-        rr = ctx.opa.run(op[1], seeds={'subst': {CT: vt}, 'key': ('sel', op[1], nm)})
+        rr = ctx.opa.run(op[1], [op, x, y], seeds={'subst': {CT: vt}, 'key': ('sel', op[1], nm)})
         got = 'x' if rr.ret == x else ('y' if rr.ret == y else None)
         if got is None:
             return None, 'for %s the operator returns %s, neither argument' % (nm, t_str(rr.ret)[:60])
